@@ -343,6 +343,16 @@ fn c09_seal_binds_location_length() {
     seal_binds_location("ab", "a/b");
 }
 
+// (added after seeded change C09-1: the path bound part by part without separators)
+// @check id=C09 tier=quick cap=600 role=seal_binds_location
+// @fns encryption::metadata_auth_aad
+// @bound as above for two paths whose parts concatenate to the same string, "a/bc" vs "ab/c"
+#[kani::proof]
+#[kani::unwind(260)]
+fn c09_seal_binds_location_parts() {
+    seal_binds_location("a/bc", "ab/c");
+}
+
 // K4 -------------------------------------------------------------------------------------------
 // verify_metadata returns before touching the cipher unless both auth fields are present, so the
 // pre-cipher decision can be run with a cipher reference that is never dereferenced.
